@@ -38,7 +38,8 @@ enum Outcome { O_SUCC = 0, O_FAIL, O_FLIP, O_NEVER, O_BLOCK, O_NOUT };   // FLIP
 // ops:  node <parent (-1 root)> <kind> <mode> <a> <b> <timeout_ms>
 //         leaf: mode = outcome, a = flip count, b bit0 = inverse flip, timeout = completion delay ms (0: inline)
 //         composite kinds: mode = the composite's mode, a = repeat times, timeout = action time-out (0: none)
-//       ctl <dt_ms> <0 pause,1 resume,2 stop,3 reset+start>
+//       ctl <dt_ms> <0 pause,1 resume,2 stop,3 reset+start> <glued>    glued: issued right behind the previous control call, inside the same
+//                                                                      loop task (no notification is delivered in between)
 void generate(sim::Rng &r, uint64_t seed, const std::string &tier, sim::Plan &p) {
   bool thorough = tier == "thorough";
   p.cfg["backend"] = r.below(2);
@@ -82,10 +83,17 @@ void generate(sim::Rng &r, uint64_t seed, const std::string &tier, sim::Plan &p)
   }
   if (use_ctl || use_never || use_block) {
     int nc = (int)r.range(1, 6);
+    if (r.chance(200)) {
+      // a pause that lands while a child's finish notification is still on its way (right behind start(), or in the loop pass
+      // in which a leaf's timer fires), then resume / pause / resume without a loop pass in between
+      sim::Op a; a.kind = "ctl"; a.a = {r.chance(500) ? 0 : r.range(1, 30), 0, r.chance(500) ? 1 : 0}; p.ops.push_back(a);
+      long steps = r.range(1, 3);
+      for (long k = 0; k < steps; ++k) { sim::Op b; b.kind = "ctl"; b.a = {k == 0 ? r.range(0, 3) : 0, (k % 2) ? 0 : 1, k == 0 ? 0 : 1}; p.ops.push_back(b); }
+    }
     for (int i = 0; i < nc; ++i) {
       sim::Op op; op.kind = "ctl";
       unsigned x = (unsigned)r.below(100);
-      op.a = {r.chance(300) ? 0 : r.range(1, 40), x < 30 ? 0 : x < 65 ? 1 : x < 85 ? 2 : 3};
+      op.a = {r.chance(300) ? 0 : r.range(1, 40), x < 30 ? 0 : x < 65 ? 1 : x < 85 ? 2 : 3, r.chance(250) ? 1 : 0};
       p.ops.push_back(op);
     }
   }
@@ -331,31 +339,41 @@ void execute(const sim::Plan &plan) {
   static drv::Timeline tl;
   tl = drv::Timeline();
   int64_t t = sim::now_ns();
-  tl.at(t, [root, loop] { loop->runInLoop([root] { W.started = true; W.tree.t0_ms = sim::now_ms(); root->start(); }, "c17.start"); });
+  const int64_t t0_start = t;
+  static std::vector<const sim::Op *> with_start;
+  with_start.clear();
+  for (const sim::Op &op : plan.ops) { if (op.kind != "ctl") continue; if (op.arg(2) != 0) with_start.push_back(&op); else break; }
+  auto do_ctl = [root](const sim::Op *o) {
+    long c = ((o->arg(1) % 4) + 4) % 4;
+    W.ctl_used = true;
+    sim::trace("ctl %ld%s", c, o->arg(2) ? " (glued)" : "");
+    if (c != 3 && W.second_run) W.disturbed2 = true;
+    if (c == 0) { if (root->isRunning()) { root->pause(); W.paused = true; } }
+    else if (c == 1) { if (root->state() == Action::State::kPause) { root->resume(); W.paused = false; } }
+    else if (c == 2) { if (root->isUnderway()) { root->stop(); W.stopped = true; check_nothing_underway(W.tree, "right after stop()"); } }
+    else if (!W.second_run && W.started && !root->isUnderway() && root->state() != Action::State::kIdle) {   // also in the window between finish() and the delivery of its notification
+      // reset and run again: must behave like a freshly built tree
+      root->reset();
+      for (size_t i = 0; i < W.tree.nodes.size(); ++i) if (W.tree.nodes[i] && W.tree.nodes[i]->state() != Action::State::kIdle) { sim::violation("C17/reset-incomplete", sim::fmt("after reset() node n%zu is not idle", i)); break; }
+      W.second_run = true; W.run_no = 2; W.cur = &W.run2; W.tree.rec = &W.run2; W.tree.leaf_starts = 0; W.tree.overrun = false;
+      hook_root(W.tree, W.run2, 2);
+      W.root_finishes = 0; W.root_blocks = 0; W.finals = 0; W.stopped = false; W.finished = false; W.paused = false;
+      root->start();
+    }
+  };
+  static std::vector<std::vector<const sim::Op *>> groups;
+  groups.clear();
+  std::vector<int64_t> group_t;
   for (const sim::Op &op : plan.ops) {
     if (op.kind != "ctl") continue;
-    const sim::Op *o = &op;
+    if (op.arg(2) != 0 && groups.empty() && std::find(with_start.begin(), with_start.end(), &op) != with_start.end()) { sim::probe("glued_control_calls"); continue; }
+    if (op.arg(2) != 0 && !groups.empty()) { groups.back().push_back(&op); sim::probe("glued_control_calls"); continue; }
     t += std::max(0L, std::min(500L, op.arg(0))) * 1000000;
-    tl.at(t, [o, root, loop] {
-      loop->runInLoop([o, root] {
-        long c = ((o->arg(1) % 4) + 4) % 4;
-        W.ctl_used = true;
-        sim::trace("ctl %ld", c);
-        if (c != 3 && W.second_run) W.disturbed2 = true;
-        if (c == 0) { if (root->isRunning()) { root->pause(); W.paused = true; } }
-        else if (c == 1) { if (root->state() == Action::State::kPause) { root->resume(); W.paused = false; } }
-        else if (c == 2) { if (root->isUnderway()) { root->stop(); W.stopped = true; check_nothing_underway(W.tree, "right after stop()"); } }
-        else if (!W.second_run && W.started && !root->isUnderway() && root->state() != Action::State::kIdle) {   // also in the window between finish() and the delivery of its notification
-          // reset and run again: must behave like a freshly built tree
-          root->reset();
-          for (size_t i = 0; i < W.tree.nodes.size(); ++i) if (W.tree.nodes[i] && W.tree.nodes[i]->state() != Action::State::kIdle) { sim::violation("C17/reset-incomplete", sim::fmt("after reset() node n%zu is not idle", i)); break; }
-          W.second_run = true; W.run_no = 2; W.cur = &W.run2; W.tree.rec = &W.run2; W.tree.leaf_starts = 0; W.tree.overrun = false;
-          hook_root(W.tree, W.run2, 2);
-          W.root_finishes = 0; W.root_blocks = 0; W.finals = 0; W.stopped = false; W.finished = false; W.paused = false;
-          root->start();
-        }
-      }, "c17.ctl");
-    });
+    groups.push_back({&op}); group_t.push_back(t);
+  }
+  tl.at(t0_start, [root, loop, do_ctl] { loop->runInLoop([root, do_ctl] { W.started = true; W.tree.t0_ms = sim::now_ms(); root->start(); for (const sim::Op *o : with_start) do_ctl(o); }, "c17.start"); });
+  for (size_t g = 0; g < groups.size(); ++g) {
+    tl.at(group_t[g], [g, loop, do_ctl] { loop->runInLoop([g, do_ctl] { for (const sim::Op *o : groups[g]) do_ctl(o); }, "c17.ctl"); });
   }
   t += 20000 * 1000000LL;      // 20 s of virtual time: far more than any tree needs
   tl.at(t, [loop] { loop->runInLoop([loop] { loop->exitLoop(); }, "c17.exit"); });
@@ -411,7 +429,13 @@ void execute(const sim::Plan &plan) {
     for (const Spec &s : spec) in.push_back(c17ref::InSpec{s.kind, s.mode, s.a, s.b, s.tmo, s.ch});
     c17ref::Model M(in);
     std::vector<c17ref::Ctl> ctls; long at = 0;
-    for (const sim::Op &op : plan.ops) if (op.kind == "ctl") { at += std::max(0L, std::min(500L, op.arg(0))); ctls.push_back(c17ref::Ctl{at, (int)(((op.arg(1) % 4) + 4) % 4)}); }
+    bool lead = true;      // control calls glued to start()
+    for (const sim::Op &op : plan.ops) if (op.kind == "ctl") {
+      bool glued = op.arg(2) != 0 && (!ctls.empty() || lead);
+      if (!glued) lead = false;
+      if (!glued) at += std::max(0L, std::min(500L, op.arg(0)));
+      ctls.push_back(c17ref::Ctl{at, (int)(((op.arg(1) % 4) + 4) % 4), glued});
+    }
     if (M.simulate(ctls, at + 20000)) {
       sim::probe("timed_reference_checks");
       const Run *real[2] = {&W.run1, &W.run2};
